@@ -72,6 +72,11 @@ GenericApproved(dom, ip) ==
     /\ (GenericDeniesSlashable => dom \notin {"att", "prop"})
     /\ ((ExitIPCheck /\ dom = "exit") => ip = "listed")
 
-GenericVerdict(dom, ip) == IF GenericApproved(dom, ip) THEN "APPROVED" ELSE "DENIED"
+\* Message SHAPE: data root and domain are 32 bytes each.  "shiftK:cls" stands for a request whose data is K bytes short and whose
+\* domain is K bytes long, the last 32 bytes of data||domain being a domain of class cls (the boundary between the two fields moved):
+\* it is not a well-formed signing request and nothing is signed for it - in particular not the message (data||domain)[0..31] under
+\* the slashable domain cls.
+ShiftedDoms == {"shift4:att", "shift4:prop", "shift1:att", "shift31:prop", "shift16:att", "shift4:exit", "shift4:randao"}
+GenericVerdict(dom, ip) == IF dom \in ShiftedDoms THEN "FAILED" ELSE IF GenericApproved(dom, ip) THEN "APPROVED" ELSE "DENIED"
 
 =============================================================================
